@@ -45,7 +45,10 @@ def projects(draw, max_steps=9, allow_always=True):
             k = st_['kind']
             if k == 'step':
                 for j, o in enumerate(st_['outs']):
-                    if o.endswith('.c') and 'c' in kinds:
+                    if o.endswith('.h'):
+                        if 'H' in kinds:
+                            out.append(['out', st_['id'], j])
+                    elif o.endswith('.c') and 'c' in kinds:
                         out.append(['out', st_['id'], j])
                     elif not o.endswith('.c') and 'd' in kinds:
                         out.append(['out', st_['id'], j])
@@ -68,6 +71,7 @@ def projects(draw, max_steps=9, allow_always=True):
         return [refs[i] for i in idx]
 
     prelude = draw(st.sampled_from(['', '', 'chain', 'diamond']))
+    pch_by_name_used = False
     for sid in range(nsteps):
         if prelude and sid < 3 and len(sources) >= 3:
             # a static chain / diamond: requirements of static libraries are
@@ -93,6 +97,8 @@ def projects(draw, max_steps=9, allow_always=True):
                 continue
             step['files'] = pick(cands, 1, 1)
             used_obj_sources.add(tuple(step['files'][0]))
+            if draw(st.integers(0, 1)) == 0:
+                step['hdrs'] = pick(file_refs('H'), 1, 2)
         elif kind in ('exe', 'slib', 'shlib'):
             raw = pick(file_refs('c'), 0, 2)
             objs = pick(file_refs('o'), 0, 2)
@@ -107,11 +113,20 @@ def projects(draw, max_steps=9, allow_always=True):
                     unique=True)))
             if draw(st.integers(0, 3)) == 0:
                 step['name'] = 'bin/' + step['name']
+            # explicitly passed (generated) headers: includes=[...]
+            if draw(st.integers(0, 2)) > 0:
+                step['hdrs'] = pick(file_refs('H'), 1, 2)
+            # a precompiled header given by name (the step is created
+            # implicitly; one source only, see the C05 finding)
+            if len(raw) == 1 and len(headers) >= 2 and \
+                    not pch_by_name_used and draw(st.integers(0, 1)) == 0:
+                step['pchname'] = headers[-1]
+                pch_by_name_used = True
         elif kind == 'step':
             nout = draw(st.sampled_from([1, 1, 2, 3]))
             step['outs'] = [
                 'g{}_{}.{}'.format(sid, j, draw(st.sampled_from(
-                    ['c', 'txt', 'txt'])))
+                    ['c', 'txt', 'txt', 'h', 'h'])))
                 for j in range(nout)]
             if draw(st.integers(0, 3)) == 0:
                 step['outs'] = ['gen/' + o for o in step['outs']]
@@ -135,7 +150,8 @@ def projects(draw, max_steps=9, allow_always=True):
     bins = [s['id'] for s in steps if s['kind'] in ('exe', 'slib', 'shlib')]
     exes = [s['id'] for s in steps if s['kind'] == 'exe']
     model = {'sources': sources, 'headers': headers, 'data': data,
-             'steps': steps, 'default': None, 'install': [], 'tests': []}
+             'steps': steps, 'default': None, 'install': [], 'tests': [],
+             'driver_tests': [], 'nested_driver_tests': []}
     if draw(st.integers(0, 2)) == 0:
         cands = [s['id'] for s in steps
                  if s['kind'] in ('exe', 'slib', 'shlib', 'step', 'copy',
@@ -146,6 +162,13 @@ def projects(draw, max_steps=9, allow_always=True):
                 st.sampled_from(cands), min_size=n, max_size=n, unique=True)))
     if exes and draw(st.integers(0, 2)) == 0:
         model['tests'] = [draw(st.sampled_from(exes))]
+    # tests handed to a test driver (and to a driver nested in it)
+    rest = [e for e in exes if e not in model['tests']]
+    if rest and draw(st.integers(0, 2)) == 0:
+        model['driver_tests'] = [draw(st.sampled_from(rest))]
+        rest = [e for e in rest if e not in model['driver_tests']]
+        if rest and draw(st.booleans()):
+            model['nested_driver_tests'] = [draw(st.sampled_from(rest))]
     if bins and draw(st.integers(0, 3)) == 0:
         model['install'] = [draw(st.sampled_from(bins))]
     return model
@@ -212,14 +235,25 @@ def reference_graph(model):
     for st_ in model['steps']:
         kind = st_['kind']
         extra = {ref_file(model, r) for r in st_['extra']}
+        hdrs = {ref_file(model, r) for r in st_.get('hdrs', [])}
         if kind == 'obj':
             o = out_name(model, st_)
             g.append({'key': 'out:' + o, 'sid': st_['id'],
-                      'inputs': {ref_file(model, st_['files'][0])} | extra,
+                      'inputs': {ref_file(model, st_['files'][0])} | extra |
+                      hdrs,
                       'outputs': [B + o], 'phony': False, 'always': False,
                       'runs': True})
         elif kind in ('exe', 'slib', 'shlib'):
             objs = set()
+            pch = set()
+            if st_.get('pchname'):
+                # documented naming: <header>.gch in the build directory
+                o = st_['pchname'] + '.gch'
+                g.append({'key': 'out:' + o, 'sid': st_['id'],
+                          'inputs': {S + st_['pchname']} | hdrs,
+                          'outputs': [B + o], 'phony': False,
+                          'always': False, 'runs': True})
+                pch = {B + o}
             for r in st_['files']:
                 f = ref_file(model, r)
                 if f.endswith('.o'):
@@ -227,7 +261,7 @@ def reference_graph(model):
                 else:
                     o = implicit_object(st_, f)
                     g.append({'key': 'out:' + o, 'sid': st_['id'],
-                              'inputs': {f}, 'outputs': [B + o],
+                              'inputs': {f} | hdrs | pch, 'outputs': [B + o],
                               'phony': False, 'always': False, 'runs': True})
                     objs.add(B + o)
             byid = step_by_id(model)
@@ -305,6 +339,11 @@ def closure(g, goals, optional=True):
     return need
 
 
+def all_tests(model):
+    return model['tests'] + model.get('driver_tests', []) + \
+        model.get('nested_driver_tests', [])
+
+
 def default_goals(model, g):
     byid = step_by_id(model)
 
@@ -321,7 +360,7 @@ def default_goals(model, g):
     goals = []
     for st_ in model['steps']:
         if st_['kind'] in ('exe', 'slib', 'shlib') and \
-                st_['id'] not in model['tests']:
+                st_['id'] not in all_tests(model):
             goals.append(B + out_name(model, st_))
     return goals
 
@@ -389,6 +428,11 @@ def script(model):
                 _ref_expr(model, r) for r in st_['extra']))
         files = '[{}]'.format(', '.join(_ref_expr(model, r)
                                         for r in st_['files']))
+        if st_.get('hdrs'):
+            extra += ', includes=[{}]'.format(', '.join(
+                _ref_expr(model, r) for r in st_['hdrs']))
+        if st_.get('pchname'):
+            extra += ', pch={!r}'.format(st_['pchname'])
         if kind == 'obj':
             L.append('{} = object_file(file={}{})'.format(
                 v, _ref_expr(model, st_['files'][0]), extra))
@@ -437,6 +481,14 @@ def script(model):
         L.append('install(v{})'.format(i))
     for i in model['tests']:
         L.append('test(v{})'.format(i))
+    if model.get('driver_tests'):
+        L.append("drv = test_driver(['drv', 'D'])")
+        for i in model['driver_tests']:
+            L.append('test(v{}, driver=drv)'.format(i))
+        if model.get('nested_driver_tests'):
+            L.append("drv2 = test_driver(['drv', 'E'], parent=drv)")
+            for i in model['nested_driver_tests']:
+                L.append('test(v{}, driver=drv2)'.format(i))
     return '\n'.join(L) + '\n'
 
 
@@ -477,8 +529,9 @@ def canonical(model):
     for st_ in model['steps']:
         out.append([st_['kind'], len(st_['files']), len(st_['libs']),
                     len(st_['extra']), len(st_['outs']), st_['always'],
+                    len(st_.get('hdrs', [])), bool(st_.get('pchname')),
                     sorted(r[0] if r[0] == 'src' else
                            'k' + str(step_by_id(model)[r[1]]['kind'])
                            for r in st_['files'] + st_['extra'])])
     return [out, bool(model['default']), len(model['install']),
-            len(model['tests'])]
+            len(all_tests(model))]
